@@ -37,7 +37,7 @@ def make_plan(prop, rng, idx, tier, variant="asan"):
             return hist.gen_replaced_file(rng, "C13"), "replaced-file"
         if idx % 40 == 6:
             return hist.gen_flavours(rng, "C13"), "value-flavours"
-        if idx % 40 == 35:
+        if idx % 40 in (35, 15):
             return hist.gen_odd_file(rng, "C13"), "odd-file"
         if idx % 20 == 9 and variant != "vg":
             # the CLI is one of the executions the property quantifies over
